@@ -19,6 +19,13 @@ def reader_design(ctx):
                              "pinned header read: a header split over two reads is an error", workers=2)
 
 
+def reader_badlen_design(ctx):
+    """C10: headers announcing a length below 8 - the repaired reader returns an error, the pinned one spins"""
+    ctx.tlc_mc("", "MC_PacketReader", "MC_PacketReader_BadLen.cfg", workers=4)
+    ctx.tlc_expect_violation("", "MC_PacketReader", "MC_PacketReader_BadLen_AsIs.cfg",
+                             "pinned reader: behind a header with length < 8 the body size wraps and the read loop never ends", workers=2)
+
+
 def tlc_behaviours(ctx, n):
     g = ctx.tlc_generate("", "MC_RxPath", "GenSim_RxPath.cfg", workers=4,
                          args=["-simulate", "num=%d" % (n // 4), "-depth", "30", "-seed", str(ctx.seed)])
